@@ -140,6 +140,17 @@ func genC07(rng *rand.Rand, tier string) *core.Plan {
 		// housekeeping runs every hour and may destroy the expired partition's log), then the process dies.
 		// The memory database's time to live is longer, so nothing is flushed by age meanwhile.
 		p.Cfg["memdb_ttl_s"] = 400000
+		if rng.Intn(2) == 0 {
+			// ... or goes on: the database accepts data that is up to three days late (option behind = 3d, ahead = 1h),
+			// so rows of the same family keep coming after a day without any - through the log of that family, as before
+			p.Cfg["late_writes"] = 1
+			p.Ops = append(p.Ops, core.Op{K: "append", A: 2, B: 2}, core.Op{K: "flushwait"}, core.Op{K: "late"},
+				core.Op{K: "append", A: int64(1 + rng.Intn(3)), B: 2}, core.Op{K: "flushwait"}, core.Op{K: "check"})
+			if rng.Intn(2) == 0 {
+				p.Ops = append(p.Ops, core.Op{K: "restart"}, core.Op{K: "check"})
+			}
+			return p
+		}
 		p.Ops = append(p.Ops, core.Op{K: "append", A: 2, B: 2}, core.Op{K: "expire"})
 		return p
 	}
@@ -605,6 +616,28 @@ func runC07(c *core.RunCtx) {
 					}
 				case "tick":
 					simrt.Sleep(time.Duration(op.A) * time.Millisecond)
+				case "late":
+					// a day without writes; the next batch of the family finds (or creates) its log the way every write
+					// of the broker's write path does
+					h.armed = false
+					if !h.catchUp() {
+						return
+					}
+					sim.Fault("late-writes-after-a-day")
+					simrt.Sleep(26 * time.Hour)
+					p, err := h.walMgr.GetOrCreateLog(h.db).GetOrCreatePartition(0, Jan1, c07Leader)
+					if err != nil {
+						c.Anomaly("partition after a day: %v", err)
+						return
+					}
+					if err := p.BuildReplicaForLeader(c07Leader, []models.NodeID{c07Leader}); err != nil {
+						c.Anomaly("build replica after a day: %v", err)
+						return
+					}
+					if p != h.part {
+						sim.Probe("log-of-the-family-created-again")
+					}
+					h.part = p
 				case "expire":
 					h.armed = false
 					if !h.catchUp() {
